@@ -8,8 +8,11 @@ package main
 import (
 	"bytes"
 	"fmt"
+	"google.golang.org/protobuf/reflect/protoregistry"
+	"google.golang.org/protobuf/types/known/anypb"
 	"math/rand"
 	"reflect"
+	"strings"
 
 	"github.com/cosmos/cosmos-proto/zzverif/glue"
 	"google.golang.org/protobuf/encoding/protojson"
@@ -21,7 +24,48 @@ import (
 
 func init() { engines["libdiff"] = engineLibDiff }
 
+// libdiffResolver: JSON and text output of an Any holding a generated message, produced with a caller-supplied
+// resolver that knows extensions of the embedded option messages: the same text as for the dynamic twin.
+func libdiffResolver(rep *Report) {
+	s := glue.Lookup("vf.wkt.HoldsOptions")
+	if s == nil {
+		return
+	}
+	d := s.Zero.ProtoReflect().Descriptor()
+	stream, unit, rank := customResolverStream()
+	if stream == nil {
+		rep.Inconclusive("C10", "custom-resolver-descriptor-rejected")
+		return
+	}
+	mk := func(mt protoreflect.MessageType) *protoregistry.Types {
+		ts := new(protoregistry.Types)
+		_ = ts.RegisterMessage(mt)
+		_ = ts.RegisterExtension(unit)
+		_ = ts.RegisterExtension(rank)
+		return ts
+	}
+	gen, dyn := mk(s.Zero.ProtoReflect().Type()), mk(dynamicpb.NewMessageType(d))
+	a := &anypb.Any{TypeUrl: "/" + string(s.FullName), Value: stream}
+	rc := replayCase{Engine: "libdiff", Type: string(s.FullName), Seed: *flagSeed, Index: -1, Value: hx(stream), Note: "custom resolver"}
+	rep.Eval("C10", []byte("custom-resolver-json"), true)
+	ja, e1 := protojson.MarshalOptions{Resolver: gen}.Marshal(a)
+	jb, e2 := protojson.MarshalOptions{Resolver: dyn}.Marshal(a)
+	if (e1 == nil) != (e2 == nil) || !bytes.Equal(ja, jb) {
+		rep.Violate("C10", "libdiff/json-marshal/custom-resolver", string(s.FullName), fmt.Sprintf("protojson of an Any holding the message, with a resolver knowing two extensions: %s (err %v); with the dynamic twin: %s (err %v)", trunc(string(ja)), e1, trunc(string(jb)), e2), rc)
+	}
+	ta, e1 := prototext.MarshalOptions{Resolver: gen}.Marshal(a)
+	tb, e2 := prototext.MarshalOptions{Resolver: dyn}.Marshal(a)
+	norm := func(b []byte) string { return strings.Join(strings.Fields(string(b)), " ") }
+	if (e1 == nil) != (e2 == nil) || norm(ta) != norm(tb) {
+		rep.Violate("C10", "libdiff/text-marshal/custom-resolver", string(s.FullName), fmt.Sprintf("prototext: %s (err %v); with the dynamic twin: %s (err %v)", trunc(norm(ta)), e1, trunc(norm(tb)), e2), rc)
+	}
+	rep.Count("C10", "custom-resolver-renderings", 2)
+}
+
 func engineLibDiff(rep *Report) {
+	if si, _ := shard(); si == 0 && onlyIndex() < 0 {
+		guardCase(rep, "C10", "libdiff", "vf.wkt.HoldsOptions", -1, func() { libdiffResolver(rep) })
+	}
 	subs := allSubjects()
 	n := perType(60, 3000)
 	only := onlyIndex()
